@@ -50,6 +50,7 @@ POINTS = {
 }
 REQUIRED_POINTS = list(POINTS)
 REQUIRED_CLAUSES = ["history.views==fresh-object", "jde==daycount", "get_date==input", "refuse.bad-day",
+                    "get_date(explicit-defaults)==get_date",
                     "step==1.0", "mjd", "anchors", "month-name-forms"]
 
 
@@ -120,6 +121,26 @@ def case_year(mon, y):
             mon.cls("year<=0", (y, m, d))
         if y == 1582 and m == 10 and d in (4, 15):
             mon.cls("reform-boundary", (y, m, d), [y, m, d, j])
+        if d == 1 or last or d == 15:
+            # the read-back options spelled out with their documented
+            # default values read what the plain call reads
+            try:
+                spelled = {"get_date(utc=False)": e.get_date(utc=False),
+                           "get_date(local=False)": e.get_date(local=False),
+                           "get_date(utc=False, local=False)":
+                           e.get_date(utc=False, local=False),
+                           "get_full_date(utc=False)[:3]":
+                           e.get_full_date(utc=False)[:3]}
+            except Exception as ex:
+                spelled = {"raised": repr(ex)}
+            mon.check("get_date(explicit-defaults)==get_date",
+                      all(tuple(v)[:2] == tuple(got)[:2]
+                          and int(tuple(v)[2]) == int(got[2])
+                          for v in spelled.values()
+                          if not isinstance(v, str))
+                      and "raised" not in spelled,
+                      lambda: {"date": [y, m, d], "plain": list(got),
+                               "spelled_out": repr(spelled)})
         if d == 1 or last:
             ok = True
             forms = (SHORT[m - 1], LONG[m - 1], SHORT[m - 1].upper(),
